@@ -16,7 +16,8 @@ QUERIES = [
     ("Omask", "map c04_oracle_mask ledger_cases"),
 ]
 BITS = [(1, "line-order"), (2, "barrier-or-act-order"), (4, "ahead-of-tempo"), (8, "csv-rows"),
-        (16, "report-does-not-bracket-command"), (32, "incomplete-performance")]
+        (16, "report-does-not-bracket-command"), (32, "incomplete-performance"), (64, "compiled-play-differs-from-script-text"),
+        (128, "concurrent-lines-did-not-run-at-the-same-time")]
 ASSUMPTIONS = [
     "the theorems are about the timed prompter model; that wg.Wait, time.After and exec behave as the model's max/+ is observed end-to-end (the tie), not proved",
     "non-tolerated action failures end the play and are outside the timed model (C05 covers them); mood changes are modelled (zero duration) but not generated end-to-end",
